@@ -30,6 +30,12 @@ theorem parseHex_length : ∀ (n acc : Nat) (s : Str) (v : Nat) (r : Str), parse
     · have := parseHex_length n _ t v r h; simp; omega
     · cases h
 
+/-- value of exactly `w` hex digits at the front of `s` -/
+def hexAt (w : Nat) (s : Str) : Option Nat :=
+  match parseHex w 0 (s.take w) with
+  | some (v, []) => if (s.take w).length = w then some v else none
+  | _ => none
+
 def unescape (q : Nat) (s : Str) : Option (List Nat) :=
   match s with
   | [] => some []
@@ -43,17 +49,16 @@ def unescape (q : Nat) (s : Str) : Option (List Nat) :=
         else if e == 110 then (unescape q r').map (10 :: ·)
         else if e == 114 then (unescape q r').map (13 :: ·)
         else if e == 116 then (unescape q r').map (9 :: ·)
-        else if e == 120 || e == 117 || e == 85 then
-          match h : parseHex (if e == 120 then 2 else if e == 117 then 4 else 8) 0 r' with
-          | some (v, r'') => (unescape q r'').map (v :: ·)
-          | none => none
+        else if e == 120 then (match hexAt 2 r' with | some v => (unescape q (r'.drop 2)).map (v :: ·) | none => none)
+        else if e == 117 then (match hexAt 4 r' with | some v => (unescape q (r'.drop 4)).map (v :: ·) | none => none)
+        else if e == 85 then (match hexAt 8 r' with | some v => (unescape q (r'.drop 8)).map (v :: ·) | none => none)
         else none
     else (unescape q r).map (c :: ·)
 termination_by s.length
 decreasing_by
   all_goals simp_wf
-  all_goals try omega
-  · have := parseHex_length _ _ _ _ _ h; omega
+  all_goals (try simp only [List.length_drop])
+  all_goals omega
 
 end PyStr
 end PP
